@@ -17,24 +17,24 @@ CHECKS = {
          "R03a funded in u128, R03b maxfee within held-amount budget, R03c amount/bolt11 parameters, evaluated at every pay issue; fee-boundary +-1 msat plans, 1-8 parts, late extra HTLCs, restarts.", SIM_NOTE),
  "C04": ("sim", "exploration", "online monitor at every pay RPC against held expiries and the heights told to the plugin (runtime monitoring)",
          "R04a maxdelay <= max(0, min expiry - known height - delta) and <= policy delta using the loosest sound snapshot; R04b low-expiry HTLC before funding rejects the set; heights advance during collection, real BlockWatcher in the loop.", SIM_NOTE),
- "C05": ("sim", "fault_enumeration", "online monitor at every pay RPC against the sendpay table; random schedules plus crash/fault position enumeration",
-         "R05: no pay while a part of the hash is pending/complete or another pay runs, for overlapping lifecycles, every crash position around the two attempt writes and pay, every stored history at restart.", SIM_NOTE),
+ "C05": ("sim+e2e", "fault_enumeration", "online monitor at every pay RPC against the sendpay table; random schedules plus crash/fault position enumeration",
+         "R05: no pay while a part of the hash is pending/complete or another pay runs, for overlapping lifecycles, every crash position around the two attempt writes and pay, every stored history at restart; plus E2E crash sessions (real binary SIGKILLed after RPC effect k, restarted against the surviving node state) judged on the node's own state.", SIM_NOTE + " E2E part trusts the fake lightningd."),
  "C06": ("sim+e2e", "exploration", "panic hook + reply accounting + bounded-liveness monitor in virtual time; real binary under a fake lightningd for the process-level half",
          "R06a exactly one well-formed answer, R06b no panic, R06c nothing unanswered after the environment is drained and the clock is past 10x mpp timeout, R06d table lock free at every quiescence; hostile payload/metadata bytes and numeric extremes. 'Eventually' is decided only as this bounded statement.", SIM_NOTE + " E2E part trusts the fake lightningd's framing."),
  "C07": ("sim", "exploration", "window monitor over answers per payment hash (runtime monitoring)",
          "R07a identical answers, R07b no member of the set left unanswered, R07c a rejecting HTLC in a still-incomplete set means no pay and Fail for all; rejecting HTLC at every position/phase including while the stored state is being fetched.", SIM_NOTE),
- "C08": ("sim", "fault_enumeration", "state invariant evaluated after every node state change (each a crash image), durable record read through the plugin's own store",
-         "R08a live part or running pay => record reads Pending/Succeeded; R08b Succeeded preimage hashes to the hash; R08c record is Pending at pay issue; checked after every environment step, with F1 faults on each write site and crash/fault position enumeration.", SIM_NOTE),
- "C09": ("sim", "fault_enumeration", "probe payments after every explored crash/fault history (recovery oracle)",
-         "R09: after every explored history (random multi-crash/multi-fault, and the enumeration of one crash at every step and one write fault of either kind at every write), a restart plus up to three fully funded probe sets in a cooperative environment must settle.", SIM_NOTE),
+ "C08": ("sim+e2e", "fault_enumeration", "state invariant evaluated after every node state change (each a crash image), durable record read through the plugin's own store",
+         "R08a live part or running pay => record reads Pending/Succeeded; R08b Succeeded preimage hashes to the hash; R08c record is Pending at pay issue; checked after every environment step, with F1 faults on each write site and crash/fault position enumeration; the same invariants on the fake node's own state in E2E crash sessions with the real binary.", SIM_NOTE + " E2E part trusts the fake lightningd."),
+ "C09": ("sim+e2e", "fault_enumeration", "probe payments after every explored crash/fault history (recovery oracle)",
+         "R09: after every explored history (random multi-crash/multi-fault, and the enumeration of one crash at every step and one write fault of either kind at every write), a restart (or none: same-process mode) plus up to three fully funded probe sets in a cooperative environment must settle, with the stored attempt left recent or aged beyond the MPP timeout; repeated with the real binary killed after RPC effect k.", SIM_NOTE + " E2E part trusts the fake lightningd."),
  "C10": ("sim", "exploration", "reference classifier derived from how each request was built vs observed classification",
          "R10: observed classification (continue / fail-at-classification / held as trampoline with pay bolt11+amount) equals the reference over the invoice x signature x hints x hash x amount-field x flag product.", SIM_NOTE),
  "C11": ("sim", "exploration", "virtual-time monitor on Fail timestamps relative to the stored-state read",
          "R11a incomplete sets get 0x2019 and no pay; R11b not before read+mpp; R11c not later than read+mpp+5ms; R11d restart grants at most one further timeout (aged stored histories).", SIM_NOTE + " Wall clock inside the plugin only enters R11d (tolerance 1 s + run wall time)."),
  "C12": ("pure+sim", "exploration", "reference oracle (u128 predicate) over boundary cross product and frontier-biased random inputs in debug, release and Miri builds; SIM monitor for the failure bytes",
          "R12a fee_sufficient == exact u128 predicate and no panic, in an overflow-checking build, a wrapping build and (thorough) under Miri; R12b every 0x201a failure carries exactly the configured policy; R12c first HTLC failing the fee/expiry test is answered with it. One known finding (mul-overflow conservative false) is keyed by signature.", "Trusted base: the u128 reference predicate; catch_unwind observes panics. " + SIM_NOTE),
- "C14": ("sim", "exploration", "differential runtime monitoring: B alone vs B next to A frozen at each suspension point, same canonical schedule",
-         "R14a B's RPC sequence, replies, answers identical and not delayed; R14b table lock free at every quiescence while A is frozen; R14c every datastore key names an offered hash and calls for B never mention A; 9 freeze points x 92 B scenarios (x12 seeds thorough).", SIM_NOTE),
+ "C14": ("sim+e2e", "exploration", "differential runtime monitoring: B alone vs B next to A frozen at each suspension point, same canonical schedule",
+         "R14a B's RPC sequence, replies, answers identical and not delayed; R14b table lock free at every quiescence while A is frozen; R14c every datastore key names an offered hash and calls for B never mention A; R14d an HTLC of another hash carrying B's invoice is never pooled into B; 11 freeze points x 92 B scenarios (x12 seeds thorough); plus E2E isolation sessions through the real rpc.rs (payments stuck in pay / waitsendpay must not delay another hash).", SIM_NOTE + " E2E part trusts the fake lightningd; wall clock only via the ping rule."),
  "C15": ("prov", "fault_enumeration", "depth-first enumeration of all interleavings of RPC effects with part resolutions against the real wait_payment; oracle at the instant of return",
          "R15a preimage only from a complete part; R15b 'none' only if no part pending/complete at return; R15c documented part-level codes never abort the wait. Exhaustive for <=3 parts in every status mix (4 pending in thorough) x codes 202/203/204/208/209.", "Trusted base: SimNode sendpay semantics (assumptions 1-4); effect and reply fused."),
  "C16": ("prov", "fault_enumeration", "depth-first enumeration of pay outcomes x part configurations x resolution orders against the real pay wrapper; oracle at the instant of return",
